@@ -62,6 +62,20 @@ class ParserModel:
             raise CheckerError("parser rules: last-request flag of %s not found (%s)" % (CC, flags))
         self.flag = flags[0]
 
+    def line_calls(self):
+        """blocks of the head reader at which its line reader (a function of the parser's own file returning io::Result<line>) is entered"""
+        rd = self.rd
+        out = []
+        for b in range(rd.n):
+            ic = rd.blocks[b].get("inl_call")
+            if not ic:
+                continue
+            cal = rd.blocks[b]["term"].get("inl_enter")
+            g = self.facts.fns.get(cal)
+            if g is not None and g.rec.get("local") and g.file == self.file and "{closure" not in cal and re.match(LINE_TY, rd.local_ty(ic["dest"]["l"])):
+                out.append(b)
+        return out
+
     def after_read(self, value, stop_at_read=True, **kw):
         """abstract paths of next() after the call of read returned `value`"""
         out = []
@@ -308,7 +322,7 @@ def trace_and_judge(ctx, r1, r2, only=None):
                         else:
                             causes.append(("%s reported by new_request" % v["name"], x, 400, "own"))
     # the line reader: end of stream, non-ASCII, timeout
-    lines = [b for b in range(rd.n) if rd.blocks[b].get("inl_call") and re.match(LINE_TY, rd.local_ty(rd.blocks[b]["inl_call"]["dest"]["l"]))]
+    lines = PM.line_calls()
     ctx.ob(r2, "%s|reads-lines" % PM.read_def, "the head reader obtains the head line by line from a line reader of its own", bool(lines), "%s:%d" % (rd.file, rd.line))
     first = [b for b in lines if all(rd.dominates(b, x, unwind=False) for x in lines)]
     for k, b in enumerate(lines):
@@ -400,3 +414,62 @@ def trace_and_judge(ctx, r1, r2, only=None):
         ctx.ob(r1, "%s|%s|closes" % (PM.cc_next.id, v["name"]), "every kind of read error ends the connection: nothing is delivered and no further request is read", ok, where)
 
     return causes
+
+
+# ------------------------------------------------------------------------------------------------
+# head fidelity helpers (C02)
+
+STR_EQ = r"PartialEq.*for str>::eq$|<str as std::cmp::PartialEq>::eq$|<impl std::cmp::PartialEq for str>::eq$|PartialEq<&.*str>.*>::eq$|<&.* as std::cmp::PartialEq.*>::eq$|<impl str>::eq_ignore_ascii_case$"
+INPUT = ("sym", "the-token")
+
+
+def str_model(token, case_sensitive_only=True):
+    """on_call model: comparing the input token with a string literal is decided (exactly, or ignoring ASCII case for eq_ignore_ascii_case)"""
+    def on_call(bb, t, args, st):
+        n = call_name(t) + " " + (t.get("res_name") or "")
+        if not re.search(STR_EQ, call_name(t)) and not re.search(r"PartialEq", n):
+            return None
+        if len(args) != 2:
+            return None
+        vals = [absint.deep(st, a) for a in args]
+        lits = [const_str(v) for v in vals]
+        has_input = [absint.contains(v, INPUT) for v in vals]
+        if any(has_input) and any(l is not None for l in lits):
+            lit = [l for l in lits if l is not None][0]
+            if call_name(t).endswith("eq_ignore_ascii_case"):
+                r = lit.lower() == token.lower()
+            else:
+                r = lit == token
+            if call_name(t).endswith("::ne"):
+                r = not r
+            return ("const", r, str(r).lower(), None)
+        return None
+    return on_call
+
+
+def eval_str_fn(facts, fdef, token, extra_stop=None):
+    """abstract paths of a `fn(&str) -> ..` with its argument bound to a token whose comparisons with literals are decided"""
+    g0 = facts.fn(fdef)
+    g = inline.inlined(facts, fdef, stop=lambda d: facts.fns[d].rec.get("local") and (facts.fns[d].file != g0.file or (extra_stop and extra_stop(d))), extern_ok=Q.std_small)
+    st = symex.Sym(g)
+    st.write_key((1,), INPUT)
+    st.write_key((1, "*"), INPUT)
+    return g, [p for p in absint.explore(g, 0, st, on_call=str_model(token), max_paths=4000) if p.end[0] == "return"]
+
+
+def unwrap_ok(v):
+    """payload of Ok(..) / Some(..), or None"""
+    if v[0] == "agg" and v[1] == RESULT and v[2] == "Ok":
+        return v[3]["0"]
+    if v[0] == "some":
+        return v[1]
+    return None
+
+
+def version_parser(facts):
+    """the function that turns the version token into an HTTPVersion: fn(&str) -> Result/Option<HTTPVersion>"""
+    c = [g for k, g in sorted(facts.local_fns.items()) if g.argc == 1 and g.locals[1]["ty"] == "&str" and re.match(r"^std::(result::Result|option::Option)<common::HTTPVersion[,>]", g.locals[0]["ty"])
+         and "{closure" not in k and not k.startswith("test")]
+    if len(c) != 1:
+        raise CheckerError("parser rules: version-token parser (fn(&str) -> Result/Option<HTTPVersion>) not found: %s" % [x.id for x in c])
+    return c[0]
